@@ -69,7 +69,10 @@ def doc_stream(rng, tier, n_ast, n_mut, n_unwrap, n_junk, delims=None, ast_kw=No
 # ============================================================================================ C01
 class C01(Base):
     id = "C01"
+    needs_cli = True
     shared_ops = ["clean", "list:json", "list:pretty", "list_all:json", "list_all:pretty"]
+    extra_trusted = ["C01: the recursion depth of parser::tree / collect_removable_ranges / merge_markers and allocation are runtime "
+                     "facts the model cannot exhibit; they are probed by running the real binary on nested documents (family deep-nesting)"]
     rule = ("one case = one (source, delimiters, configuration) run through clean and the four list modes under catch_unwind "
             "(overflow checks on); bounded-exhaustive atom strings, random atom strings, G-ast/G-mut/G-unwrap documents; "
             "non-trivial = the implementation's token list contains at least one tag token")
@@ -102,8 +105,55 @@ class C01(Base):
             if rng.random() < 0.7:
                 items.insert(0, gen.Line("pre"))
             yield self.mk(gen.render(items, final_nl=rng.random() < 0.8), "<", ">", proto.DEFAULT_CFG, "wrapper-tags")
+        # recursion depth: documents nested a few hundred levels deep must pass through the real binary in every mode
+        # (deeper ones are the known finding D20 and are run as its witnesses)
+        for depth in (50, 150, 300):
+            for closed in (True, False):
+                for ready in (False, True):
+                    for mode in ("clean", "list", "list_all", "list_json"):
+                        yield self.deep_case(depth, closed, ready, mode)
+
+    @staticmethod
+    def deep_doc(body):
+        n = body["depth"]
+        opener = "<rm name='a'>" if body.get("ready") else "<zz>"
+        closer = "</rm>" if body.get("ready") else "</zz>"
+        return opener * n + "x" + (closer * n if body.get("closed", True) else "")
+
+    def deep_case(self, depth, closed=True, ready=False, mode="clean", label="deep-nesting"):
+        body = {"replay": True, "deep": True, "depth": depth, "closed": closed, "ready": ready, "mode": mode}
+        return Case(label, [], body, key=json.dumps(body, sort_keys=True))
+
+    def corpus_cases(self, name, body):
+        if body.get("deep"):
+            return [Case(name, [], dict(body), key=json.dumps(body, sort_keys=True))]
+        return super().corpus_cases(name, body)
+
+    def region_deep_nesting(self, case, verdict):
+        """the real binary dies of stack exhaustion (SIGABRT / SIGSEGV) on a document nested at least 1000 levels deep"""
+        return verdict.get("fail") == "abort" and bool(case.meta.get("deep")) and case.meta.get("depth", 0) >= 1000
+
+    def oracle_deep(self, case):
+        import subprocess, tempfile, os
+        m = case.meta
+        doc = self.deep_doc(m)
+        args = [self.cli, "--delimiter-start", "<", "--delimiter-end", ">", "--removal-marker-tag-name", "rm",
+                "--removal-marker-target-name", "a", "--time-limited-current", "2020-01-01T00:00:00+00:00"]
+        args += {"clean": [], "list": ["--list"], "list_all": ["--list-all"], "list_json": ["--list", "--list-json"]}[m.get("mode", "clean")]
+        r = subprocess.run(args, input=doc.encode(), stdout=subprocess.PIPE, stderr=subprocess.PIPE)
+        tag = "deep:%d" % m["depth"]
+        if r.returncode < 0 or r.returncode in (134, 139):
+            return {"fail": "abort", "detail": "the binary died with status %d on a document nested %d levels deep (%s): %s"
+                    % (r.returncode, m["depth"], m.get("mode", "clean"), r.stderr.decode(errors="replace")[-200:].strip()),
+                    "nontrivial": True, "tags": [tag, "abort"]}
+        if r.returncode != 0:
+            return {"fail": "panic", "detail": "the binary exited with %d: %s" % (r.returncode, r.stderr.decode(errors="replace")[-300:]),
+                    "nontrivial": True, "tags": [tag, "panic"]}
+        return {"nontrivial": True, "tags": [tag, "deep-ok"]}
 
     def oracle(self, case, impl, spec):
+        if case.meta.get("deep"):
+            return self.oracle_deep(case)
         for op, r in zip(API_OPS, impl):
             k, v = parse_reply(r)
             if k == "panic":
